@@ -113,7 +113,7 @@ D2 == LET Ms == {MType("T", Leaf("int")), MMethod("M", Struct(<<F("a", Leaf("int
 (* --- edits (C06) ----------------------------------------------------------- *)
 (* names with a non-ASCII letter; never well-formed.  The driver concretises U1 as U+00EA (UTF-8 C3 AA: both bytes *)
 (* are letters when read as Latin-1) and U4 as the single byte E9 (Latin-1, not valid UTF-8)                     *)
-NonAscii == {"aU1", "TU1", "aU4", "U5"}      \* U5: a byte order mark (EF BB BF) as a token of its own
+NonAscii == {"aU1", "TU1", "aU4", "U5", "U6", "U7", "U8", "U9"}   \* U6..U9: the bytes 0B, 0C, 85, A0 (white space to Unicode, not to the grammar)      \* U5: a byte order mark (EF BB BF) as a token of its own
 Alphabet == {"interface", "type", "method", "error", "(", ")", ",", ":", "->", "?", "[", "]", "string", "int", "a", "T", "x.y", "9", "-"} \cup NonAscii
 (* one edit, addressed by (kind, position, replacement); out-of-range addresses give s itself *)
 EditAt(s, kind, i, x) ==
